@@ -455,6 +455,9 @@ func verifyRRSIGWithWork(
 	// alongside legitimately authenticated in-zone data and still
 	// end up marked AuthenticatedData=true, violating RFC 4035
 	// §3.2.3.
+	// NSEC and NSEC3 records in the authority section are the denial
+	// proof, and a proof speaks for the owner name it is printed under.
+	denial := make(map[rrsetKey]struct{})
 	var collectErr error
 	collect := func(records []dns.RR, fromAuthority bool) {
 		for _, r := range records {
@@ -496,6 +499,9 @@ func verifyRRSIGWithWork(
 			}
 			k := rrsetKey{name: name, rtype: rtype, class: r.Header().Class}
 			rrsets[k] = append(rrsets[k], r)
+			if fromAuthority && (rtype == dns.TypeNSEC || rtype == dns.TypeNSEC3) {
+				denial[k] = struct{}{}
+			}
 		}
 	}
 	collect(msg.Answer, false)
@@ -557,6 +563,20 @@ func verifyRRSIGWithWork(
 			return false, ErrMissingSigned
 		}
 		sigList = uniqueSortedRRSIGs(sigList)
+		if _, isDenial := denial[key]; isDenial {
+			// A signature whose Labels field is below the owner's label
+			// count verifies against the wildcard it was expanded from,
+			// not against this owner (RFC 4035 §5.3.2). That reading is
+			// for answers. Accepting it here lets anyone on the path take
+			// the zone's own "*.zone NSEC", print any name of the zone
+			// over it, and present it as that name's NSEC — a signed
+			// NODATA for a name that has the type, or cover for a name
+			// that exists.
+			sigList = exactOwnerSignatures(key.name, sigList)
+			if len(sigList) == 0 {
+				return false, ErrMissingSigned
+			}
+		}
 
 		var lastErr error
 		verified := false
@@ -581,6 +601,22 @@ func verifyRRSIGWithWork(
 	}
 
 	return true, nil
+}
+
+// exactOwnerSignatures keeps the signatures made over owner itself, leaving
+// out those that could only verify as a wildcard expansion onto it.
+func exactOwnerSignatures(owner string, sigs []*dns.RRSIG) []*dns.RRSIG {
+	labels := dns.CountLabel(owner)
+	if strings.HasPrefix(owner, "*.") {
+		labels-- // RFC 4034 §3.1.3: the wildcard label is not counted
+	}
+	kept := sigs[:0:0]
+	for _, sig := range sigs {
+		if int(sig.Labels) >= labels {
+			kept = append(kept, sig)
+		}
+	}
+	return kept
 }
 
 type rrsigIdentity struct {
